@@ -188,10 +188,65 @@ def _who_may_pad(ctx):
     ctx.require_count("R9.3 neighbour-reading call sites", n, 16)
 
 
+def _config_kinds(ctx):
+    """boundary_objects_from_config: a face declared 'periodic' gets a zero Bloch vector whatever the configured
+    vector is; a face declared 'bloch' gets the configured one; walls are not periodic objects at all."""
+    from ..values import Builtin, ClassRef
+
+    ix = ctx.index
+    f = ix.function("fdtdx.objects.boundaries.initialization.boundary_objects_from_config")
+    ctx.unit(f.where())
+    BC = ix.cls("fdtdx.objects.boundaries.initialization.BoundaryConfig")
+    faces = {"min_x": "minx", "max_x": "maxx", "min_y": "miny", "max_y": "maxy", "min_z": "minz", "max_z": "maxz"}
+    kvec = (Rat.atom("kx"), Rat.atom("ky"), Rat.atom("kz"))
+    bad, n = [], 0
+    for kinds in (("bloch", "periodic", "pec"), ("periodic", "bloch", "periodic"), ("periodic", "pmc", "bloch"), ("bloch", "bloch", "bloch"), ("periodic", "periodic", "periodic")):
+        it = ctx.fresh_interp()
+        attrs = {"bloch_vector": kvec}
+        for kind, sfx in faces.items():
+            axis = "xyz".index(kind[-1])
+            attrs[f"boundary_type_{sfx}"] = kinds[axis]
+            attrs[f"thickness_grid_{sfx}"] = 1
+        made = []
+
+        def mk(it_, callee, args, kwargs, _made=made):
+            if isinstance(callee, ClassRef) and callee.ci.module.name.startswith("fdtdx.objects.boundaries.") and callee.ci.name in ("BlochBoundary", "PerfectElectricConductor", "PerfectMagneticConductor", "PerfectlyMatchedLayer"):
+                o = Obj(callee.ci, dict(kwargs), callee.ci.name)
+                o.attrs["place_relative_to"] = Builtin("place_relative_to", lambda i2, a2, k2: ("constraint",))
+                _made.append(o)
+                return o
+            return NotImplemented
+
+        it.call_hooks.append(mk)
+        try:
+            bnds, _ = it.call(it.closure_of(f), [Obj(BC, attrs, "bc"), Obj(None, {"name": "volume"}, "volume")], {})
+        except Raised as r:
+            raise AnalysisError(f"boundary_objects_from_config raises: {r}")
+        for kind in faces:
+            axis = "xyz".index(kind[-1])
+            b = bnds.get(kind)
+            want_kind = kinds[axis]
+            n += 1
+            if not isinstance(b, Obj):
+                bad.append((kinds, kind, "missing"))
+                continue
+            is_bloch_obj = b.cls is ix.cls(BLO)
+            if want_kind in ("bloch", "periodic"):
+                vec = b.attrs.get("bloch_vector")
+                want = kvec if want_kind == "bloch" else (0, 0, 0)
+                ok = is_bloch_obj and vec is not None and len(vec) == 3 and all(to_rat(x).equals(to_rat(y)) for x, y in zip(vec, want)) and b.attrs.get("axis") == axis and b.attrs.get("direction") == ("-" if kind.startswith("min") else "+")
+                if not ok:
+                    bad.append((kinds, kind, [to_rat(x).fmt() for x in vec] if vec else vec))
+            elif is_bloch_obj:
+                bad.append((kinds, kind, "a wall was built as a periodic face"))
+    ctx.ob("R9.4", "boundary_objects_from_config:periodic-vs-bloch", not bad and n == 30, "a face declared 'periodic' carries the zero Bloch vector even when the configuration holds a non-zero one (plain copies in the supercell), a face declared 'bloch' carries the configured vector, on its own axis and side; walls are not periodic faces (5 mixed configurations, 30 faces)", bad[:3], "periodic -> (0,0,0); bloch -> config.bloch_vector")
+
+
 def run(ctx):
     _halo_rules(ctx)
     _flags(ctx)
     _who_may_pad(ctx)
-    ctx.require_count("C09", len(ctx.obligations), 15)
+    _config_kinds(ctx)
+    ctx.require_count("C09", len(ctx.obligations), 16)
     ctx.trusted_base += ["np.pad model on concrete arrays", "syntax-tree def-use of the padded inputs (single-assignment names)"]
     ctx.assume("uniform resolution L = N*res or resolved-grid extent; the supercell copy c carries exp(i k c L)")
